@@ -974,6 +974,10 @@ class Exec:
                 return NONE_V
             if name in ("union",) and len(args) == 1:
                 return V(ty, z3.SetUnion(recv.t, coerce(args[0], ty).t))
+            if name == "difference" and len(args) == 1:
+                return V(ty, z3.SetDifference(recv.t, coerce(args[0], ty).t))
+            if name == "intersection" and len(args) == 1:
+                return V(ty, z3.SetIntersect(recv.t, coerce(args[0], ty).t))
         if isinstance(ty, DictT):
             has, get = ty.fn("has"), ty.fn("get")
             if name == "get":
